@@ -9,6 +9,7 @@ package main
 import (
 	"fmt"
 	"go/types"
+	"strings"
 
 	"golang.org/x/tools/go/ssa"
 )
@@ -27,7 +28,14 @@ type natsSub struct {
 	handler Value
 }
 
+type natsServed struct {
+	pattern []string
+	handler Value
+}
+
 type natsConn struct {
+	served    []natsServed
+	inbox     int
 	events    []natsEvent
 	subs      []*natsSub
 	responder Value // func(subject string, data []byte) ([]byte, bool)
@@ -103,6 +111,14 @@ func init() {
 	intrinsics[pre+"Publish"] = func(in *Interp, fr *frame, args []Value) Value {
 		c := in.connOf(args[0])
 		c.events = append(c.events, natsEvent{kind: "pub", subject: args[1].(Str), data: args[2].(Slice)})
+		if len(c.served) > 0 {
+			if _, conc := args[1].(Str).conc(); conc {
+				if h := in.natsMatch(c, args[1].(Str)); h != nil {
+					in.callFunction(fr, h, []Value{in.newNatsMsg(args[1].(Str), Str{}, args[2].(Slice), args[0])})
+					in.curFrame = fr
+				}
+			}
+		}
 		return Iface{}
 	}
 	intrinsics[pre+"PublishRequest"] = func(in *Interp, fr *frame, args []Value) Value {
@@ -114,6 +130,19 @@ func init() {
 		c := in.connOf(args[0])
 		subj, data := args[1].(Str), args[2].(Slice)
 		c.events = append(c.events, natsEvent{kind: "req", subject: subj, data: data})
+		if h := in.natsMatch(c, subj); h != nil {
+			c.inbox++
+			reply := concStr(in.tt, fmt.Sprintf("_INBOX.%d", c.inbox))
+			mark := len(c.events)
+			in.callFunction(fr, h, []Value{in.newNatsMsg(subj, reply, data, args[0])})
+			in.curFrame = fr
+			for _, e := range c.events[mark:] {
+				if (e.kind == "pub" || e.kind == "respond") && in.strEq(e.subject, reply).IsTrue() {
+					return Tuple{in.newNatsMsg(reply, Str{}, e.data, args[0]), Iface{}}
+				}
+			}
+			return Tuple{(*Value)(nil), in.natsErr("nats: timeout")}
+		}
 		if c.responder == nil {
 			return Tuple{(*Value)(nil), in.natsErr("nats: no responders available for request")}
 		}
@@ -210,6 +239,18 @@ func init() {
 		}
 		return c.subs[i.val].subject
 	}
+	// vServe(nc, subject, handler): natively a subscription; in the engine a
+	// Request (or a Publish, fire-and-forget) on a matching subject invokes
+	// the handler synchronously.
+	vIntrinsics["vServe"] = func(in *Interp, fr *frame, args []Value) Value {
+		c := in.connOf(args[0])
+		pat, ok := args[1].(Str).conc()
+		if !ok {
+			in.unsupported("vServe with symbolic subject")
+		}
+		c.served = append(c.served, natsServed{pattern: strings.Split(pat, "."), handler: args[2]})
+		return nil
+	}
 	// vGo(f): natively `go f()`; in the engine f runs to completion at once,
 	// its channel operations are queued in program order (see selectOp).
 	vIntrinsics["vGo"] = func(in *Interp, fr *frame, args []Value) Value {
@@ -220,3 +261,35 @@ func init() {
 }
 
 var _ = ssa.NaiveForm
+
+// natsMatch finds a served handler whose pattern matches the (concrete)
+// subject; * matches one token, > the rest.
+func (in *Interp) natsMatch(c *natsConn, subj Str) Value {
+	if len(c.served) == 0 {
+		return nil
+	}
+	s, ok := subj.conc()
+	if !ok {
+		in.unsupported("request on a symbolic subject with served handlers")
+	}
+	toks := strings.Split(s, ".")
+	for _, sv := range c.served {
+		ok := true
+		for i, p := range sv.pattern {
+			if p == ">" {
+				break
+			}
+			if i >= len(toks) || (p != "*" && p != toks[i]) {
+				ok = false
+				break
+			}
+			if i == len(sv.pattern)-1 && len(toks) != len(sv.pattern) {
+				ok = false
+			}
+		}
+		if ok {
+			return sv.handler
+		}
+	}
+	return nil
+}
